@@ -1041,6 +1041,10 @@ func enumerate(syms []string, maxLen int, yield func(string)) {
 
 const chunk = 4000
 
+// maxFailures: an enumeration worker stops after this many violations (one is
+// enough for the verdict).
+const maxFailures = 20
+
 func TestC16Enum(t *testing.T) {
 	if os.Getenv("VERIF_REPLAY") != "" {
 		vh.Run(t, prop)
@@ -1048,6 +1052,7 @@ func TestC16Enum(t *testing.T) {
 	}
 	shard, n := vh.Shard()
 	var batch []string
+	failures := 0
 	flush := func() {
 		var ws []string
 		for _, w := range batch {
@@ -1059,7 +1064,11 @@ func TestC16Enum(t *testing.T) {
 			bashEval(ws) // warm the cache: one process for the chunk
 		}
 		for _, w := range batch {
-			vh.Each(t, prop, Case{Words: []string{w}})
+			if !vh.Each(t, prop, Case{Words: []string{w}}) {
+				if failures++; failures >= maxFailures {
+					t.Fatalf("stopping after %d violations", failures)
+				}
+			}
 		}
 		batch = batch[:0]
 		cacheMu.Lock()
